@@ -1,4 +1,5 @@
 #![allow(dead_code)]
+mod alloc;
 mod case;
 mod check;
 mod crash;
@@ -12,15 +13,20 @@ mod model;
 mod prng;
 mod props;
 mod props2;
+mod props3;
 mod run;
 mod simfs;
 mod walparse;
+mod watchdog;
 mod world;
 
 use std::collections::BTreeSet;
 use std::process::ExitCode;
 
 use check::{Found, RunReport, Tier};
+
+#[global_allocator]
+static GLOBAL: alloc::Counting = alloc::Counting;
 
 fn root() -> String {
     std::env::var("VERIF_ROOT").unwrap_or_else(|_| "/verif".to_string())
@@ -141,7 +147,7 @@ fn cmd_check(prop: &str, tier: Tier) -> ExitCode {
     let mut seen: BTreeSet<String> = BTreeSet::new();
     let mut violations = 0usize;
     let mut harness_error = !m.harness_errors.is_empty();
-    for e in &m.harness_errors {
+    for e in m.harness_errors.iter().take(3) {
         eprintln!("harness error: {e}");
     }
     let _ = std::fs::create_dir_all(format!("{}/replays", root()));
